@@ -14,6 +14,12 @@
     difference is exact over the reals; z3 proves view.get_jacobian(x) equal to the
     analytic Jacobian of view(.) for native and rescaled views and to 2 f^T J for
     the scalar view.
+(e) Newton system: with uninterpreted merit functions and the recording LAPACK stub of optcommon, the matrix
+    and right-hand side handed to the least-squares solver in every non-Broyden Jacobian step equal the
+    finite-difference Jacobian / residuals of the current problem (active targets with their current weights
+    and requested values, active knobs) at the current point - also when the optimizer returns to a point it
+    has already stepped from.  Together with (a) this is the symbolic content of "the first step lands on
+    the solution of a consistent linear problem".
 Clause (d) of the property (first step lands on the solution with real LAPACK in
 binary64, condition number <= 100) cannot be encoded (no model of
 numpy.linalg.svd): not claimed.
@@ -40,13 +46,15 @@ ASSUMPTIONS = [
     "numpy.linalg.svd returns factors with s sorted decreasingly and non-negative (numpy's contract, exercised by the repository tests); orthonormality is not needed for (a)",
     "the minimum-norm least-squares characterisation of the truncated SVD formula is trusted mathematics",
     "(d) first-step-lands-on-solution with real LAPACK in binary64 is outside this technique",
+    "(e) Newton system: unit knob weights, probe step 1e-3, target weights 1 or 2, non-Broyden steps; the solver keeps its own point when the knobs agree with it within 1e-12 (Optimize.step), so the system may be taken at either point; every step is cut right after its system is recorded (an interrupted step followed by reload(0) is itself a legal history)",
 ]
 BOUNDS = {
-    "quick": "(a) shapes m,n <= 3 (all 9), every cutoff, two successive calls; (b) 1 and 2 knobs; (c) 1x1, 2x1, 1x2, 2x2 linear problems, native / rescaled / scalar views",
-    "thorough": "(a) adds 4x2, 2x4, 4x4 (single call); (c) 2x2 with both rescale and scalar",
+    "quick": "(a) shapes m,n <= 3 (all 9), every cutoff, two successive calls; (b) 1 and 2 knobs; (c) 1x1, 2x1, 1x2, 2x2 linear problems, native / rescaled / scalar views; (e) Newton system = finite-difference Jacobian of the current problem at the current point: 8 call sequences on 1x1 / 1x2 / 2x1 that return to the same point with another configuration (target off for one call, enabled later, weight or requested value changed, active knob swapped)",
+    "thorough": "(a) adds 4x2, 2x4, 4x4 (single call); (c) 2x2 with both rescale and scalar; (e) the same sequences with every step but the last run to its end",
 }
 OUTSIDE = "clause (d) with real LAPACK and binary64 rounding; shapes beyond 4x4"
-REQUIRED_CLASSES = ["lstsq_checked", "lstsq_second_call", "roundtrip_checked", "jacobian_checked", "rank_deficient_path"]
+REQUIRED_CLASSES = ["lstsq_checked", "lstsq_second_call", "roundtrip_checked", "jacobian_checked", "rank_deficient_path", "newton_system_checked"]
+REPLAY_REALS = ["fraction"]
 PROFILE_CASES = 4
 TASKS_PER_CHILD = 20
 
@@ -256,8 +264,123 @@ def run_jacobian(ex, case):
         SymReal.exact_mul = False
 
 
+NEWTON_SCENARIOS = {
+    # name: (nk, nt, [calls])
+    "fresh_1x2": (1, 2, ["step"]),
+    "fresh_2x1": (2, 1, ["step"]),
+    "target_off_for_one_call_1x2": (1, 2, ["step_dt1", "reload0", "step"]),
+    "target_enabled_later_1x2": (1, 2, ["disable_t1", "step", "enable_t1", "reload0", "step"]),
+    "target_weight_changed_1x1": (1, 1, ["step", "reload0", "weight_t0", "step"]),
+    "target_value_changed_1x1": (1, 1, ["step", "reload0", "value_t0", "step"]),
+    "knob_swapped_2x1": (2, 1, ["step_dv1", "reload0", "step_dv0"]),
+    "same_point_again_1x1": (1, 1, ["step", "reload0", "step"]),
+}
+
+
+def run_newton(ex, case):
+    """The linear system handed to the least-squares solver at every non-Broyden Jacobian step is the
+    finite-difference Jacobian of the CURRENT problem at the CURRENT point: rows = the targets active during
+    that call (their current weights and requested values), columns = the active knobs, right-hand side = the
+    current residuals.  Uninterpreted merit functions, symbolic start point / limits / tolerances; LAPACK is the
+    recording stub of optcommon.  Call sequences return to the same point with another configuration."""
+    from . import optcommon as OC
+    nk, nt, calls = NEWTON_SCENARIOS[case["scenario"]]
+    P = OC.Problem(ex, {"nk": nk, "nt": nt})
+    try:
+        opt = P.make_opt()
+    except (Abort, Inconclusive):
+        raise
+    except Exception:
+        raise Abort()
+    h = 1e-3                              # Vary(step=1e-3), unit knob weights: the probe step in x space
+    tw = [1.0] * nt                       # target weights as the harness knows them
+    det = {"scenario": case["scenario"], "calls": []}
+    last_step = max(i for i, c in enumerate(calls) if c.startswith("step"))
+    for pos, name in enumerate(calls):
+        det["calls"].append(name)
+        n0 = len(P.rec.svd_inputs)
+        # every step is cut right after its system has been recorded (as if the user's action had been
+        # interrupted there): what follows the least-squares call is the subject of C09/C10/C15, and a
+        # reload(0) comes next in every multi-call sequence
+        P.rec.stop_next = True if case.get("cut", True) else (pos == last_step)
+        kw = {}
+        if name == "reload0":
+            opt.reload(0)
+            continue
+        if name == "disable_t1":
+            opt.disable(target=1)
+            continue
+        if name == "enable_t1":
+            opt.enable(target=1)
+            continue
+        if name == "weight_t0":
+            opt.targets[0].weight = 2.0
+            tw[0] = 2.0
+            continue
+        if name == "value_t0":
+            nv = ex.real("tv_new")
+            opt.targets[0].value = nv
+            P.tvals[0] = nv
+            continue
+        if name == "step_dt1":
+            kw = {"disable_target": [1]}
+        elif name == "step_dv1":
+            kw = {"disable_vary": [1]}
+        elif name == "step_dv0":
+            kw = {"disable_vary": [0]}
+        act_t = [i for i, t in enumerate(opt.targets) if t.active and not (name == "step_dt1" and i == 1)]
+        act_k = [j for j, v in enumerate(opt.vary) if v.active and not (name == "step_dv1" and j == 1) and not (name == "step_dv0" and j == 0)]
+        x = P.knobs_now()
+        # the solver keeps its own point when the knobs agree with it within 1e-12 (Optimize.step): the system
+        # is then taken at that point
+        xs_old = None if opt.solver.x is None else list(opt.solver.x)
+        try:
+            opt.step(1, **kw)
+        except (Abort, Inconclusive):
+            raise
+        except OC.StopAfterSystem:
+            pass
+        except Exception as e:
+            oc = OC.classify(e)
+            if oc not in ("runtime_error", "limit_value_error", "value_error"):
+                ex.fail(f"unexpected {oc} in {name}: {e}", det)
+                return
+        for (mat, rhs) in P.rec.svd_inputs[n0:]:
+            mat = np.asarray(mat, dtype=object)
+            note(ex, "newton_system_checked")
+            if mat.shape[0] != len(act_t) or len(rhs) != len(act_t):
+                ex.fail(f"{name}: the least-squares system has {mat.shape[0]} rows, {len(act_t)} targets are active in this call", det)
+                return
+            if mat.shape[1] != len(act_k):
+                if mat.shape[1] < len(act_k):
+                    note(ex, "columns_masked_by_limits")
+                    continue
+                ex.fail(f"{name}: the least-squares system has {mat.shape[1]} columns, {len(act_k)} knobs are active in this call", det)
+                return
+
+            def F(i, pt):
+                return (P.fs[i](*pt) - P.tvals[i]) * tw[i]
+            def system_at(pt):
+                conj = []
+                for r, i in enumerate(act_t):
+                    conj.append(term(rhs[r]) == term(F(i, pt)))
+                    for c, j in enumerate(act_k):
+                        xp = list(pt)
+                        xp[j] = xp[j] + h
+                        conj.append(term(mat[r, c]) == term((F(i, xp) - F(i, pt)) / h))
+                return z3.And(*conj)
+            alts = [system_at(x)]
+            if xs_old is not None and len(xs_old) == len(x):
+                alts.append(system_at(xs_old))
+            if not ex.prove(z3.Or(*alts),
+                            f"{name}: the matrix / right-hand side handed to the least-squares solver are not the finite-difference Jacobian / residuals of the current problem (targets {act_t}, knobs {act_k}) at the current point", det):
+                return
+    if len(ex.samples) < 1:
+        ex.samples.append(det)
+
+
 def run_case(ex, case):
-    return {"lstsq": run_lstsq, "roundtrip": run_roundtrip, "jacobian": run_jacobian}[case["mode"]](ex, case)
+    return {"lstsq": run_lstsq, "roundtrip": run_roundtrip, "jacobian": run_jacobian, "newton": run_newton}[case["mode"]](ex, case)
 
 
 def cases(tier):
@@ -273,6 +396,15 @@ def cases(tier):
             if (nk, nt) == (2, 2) and view == "rescaled" and tier == "quick":
                 continue
             out.append({"mode": "jacobian", "nk": nk, "nt": nt, "view": view})
+    for sc in NEWTON_SCENARIOS:
+        out.append({"mode": "newton", "scenario": sc})
+    if tier != "quick":
+        # the same sequences with every step but the last run to its end (about 300 000 paths)
+        import sys
+        from symx import driver
+        for sc in NEWTON_SCENARIOS:
+            if len(NEWTON_SCENARIOS[sc][2]) > 1:
+                out += driver.split_case(sys.modules[__name__], {"mode": "newton", "scenario": sc, "cut": False}, 8)
     if tier != "quick":
         for (m, n) in ((4, 2), (2, 4), (4, 4)):
             out.append({"mode": "lstsq", "m": m, "n": n, "calls": 1})
